@@ -479,7 +479,7 @@ def _is_address_term(t):
     return False
 
 
-def wrap_free(R, rule, fn, inline=(), roots=('+',), known=None):
+def wrap_free(R, rule, fn, inline=(), roots=('+',), known=None, summaries=()):
     """Address arithmetic of `fn` (helpers in `inline` inlined) cannot wrap around 2^32: every outermost unsigned 32-bit
     sum that a guard compares, a store keeps or a call receives has its mathematical value inside the type, proved from the
     guards of its path.  A guard that itself contains a sum not proved so gives no fact (its meaning is not the mathematical
@@ -521,6 +521,19 @@ def wrap_free(R, rule, fn, inline=(), roots=('+',), known=None):
         for c, pr in probes:
             if pr is not None and pr[0] == 'nowrap':
                 extra.append(_sym.linearize(pr[1][1]) + _sym.linearize(pr[1][2]) - ((1 << 32) - 1))
+        # predicate helpers that are not looked into (`summaries`): a call answered non-zero gives, as facts only, the
+        # sum-free comparisons of the helper's one accepting path (its sums are that function's own business)
+        for e in p.effects:
+            if e.kind == 'call' and e.name in summaries and any(c[0] == 'cmp' and c[1] == '!=' and strip_cast(c[2]) == e.result and c[3] == _sym.C(0) for c in conds):
+                try:
+                    hp = [q for q in eng.paths(e.name) if q.end == 'return' and q.ret is not None and q.ret != _sym.C(0)]
+                    prm = [('v', x.get('name')) for x in u.params(e.name)]
+                except Exception:      # noqa: BLE001
+                    hp, prm = [], []
+                if len(hp) == 1 and len(prm) == len(e.args) and not [x for x in hp[0].effects if x.kind in ('call', 'icall', 'store')]:
+                    m = dict(zip(prm, e.args))
+                    hc = [_sym.substitute(c, m) for c in hp[0].cond_terms() if not any(x[0] == '+' for x in _sym.subterms(c))]
+                    extra += eng.strict_facts(hc)
         # a probe is no use of the sum's value: what it compares is the wrapped result on purpose
         terms = [c for c, pr in probes if pr is None]
         for e in p.effects:
